@@ -22,12 +22,12 @@
                                        KeyError of [ctr.block_num] for a target that does not exist).
     Block-type-specific data are abstract ids (numbers); blocks are named by their block numbers.
 
-    What the code does with a raised exception (kept faithfully, it is what C12 trips over):
-      [_verify_bib] turns it into a TEXT "result"; the reason recorded is [max(failure)]:
-      only numbers -> the largest code; only texts -> a text (marked deleted, reason not a code);
-      numbers and texts mixed -> [max] raises TypeError AFTER 'deliver' was removed from the actions and
-      BEFORE 'delete' is recorded; the chain runner catches it and stops: the bundle is neither
-      delivered nor marked deleted ([Dropped]). *)
+    A raised exception: [_verify_bib] / [_verify_bcb] catch it, log it and put
+    StatusReport.ReasonCode.FAILED_SEC into the [failure] list (since the "fix:" commit d956b1c; before
+    it a TEXT went into the list, [max()] of texts gave a text reason and [max()] of mixed texts and
+    numbers raised TypeError after 'deliver' had been removed - property C12's regression witnesses
+    harness/corpus/C12_text_reason.json and C12_mixed_reasons_dropped.json).  The recorded reason is
+    [max(failure)], the largest code. *)
 From Coq Require Import NArith List Bool.
 Import ListNotations.
 Local Open Scope N_scope.
@@ -132,51 +132,45 @@ Definition blk_result (s : secblk) : vres :=
        | PreOk => tgts_result (s_tgts s)
        end.
 
+(** What [_verify_bib] / [_verify_bcb] append to [failure] for one block: nothing for a verified
+    block, the code the context answered, FAILED_SEC for an exception that escaped the context. *)
+Definition step_code (r : vres) : option N :=
+  match r with VNone => None | VCode code => Some code | VRaised => Some FAILED_SEC end.
+
+Definition push (r : vres) (rs : list N) : list N :=
+  match step_code r with Some code => code :: rs | None => rs end.
+
 (** Iteration over a COPY of the block list (fixed code): every listed block is visited. *)
-Fixpoint verify_all (c : cfg) (l : list secblk) (v : view) : view * list vres :=
+Fixpoint verify_all (c : cfg) (l : list secblk) (v : view) : view * list N :=
   match l with
   | [] => (v, [])
   | s :: rest =>
     let '(v1, r) := verify_block c s v in
     let '(v2, rs) := verify_all c rest v1 in
-    (v2, match r with VNone => rs | _ => r :: rs end)
+    (v2, push r rs)
   end.
 
 (** [max(failure)] *)
-Inductive reason := RCode (c : N) | RText.
-Inductive maxres := MaxCode (c : N) | MaxText | MaxTypeError.
-
-Fixpoint max_failure (l : list vres) : option maxres :=
+Fixpoint max_code (l : list N) : option N :=
   match l with
   | [] => None
-  | r :: rest =>
-    Some (match r, max_failure rest with
-          | VCode c, None => MaxCode c
-          | VCode c, Some (MaxCode x) => MaxCode (N.max c x)
-          | VCode _, Some _ => MaxTypeError
-          | VRaised, None => MaxText
-          | VRaised, Some MaxText => MaxText
-          | VRaised, Some _ => MaxTypeError
-          | VNone, None => MaxCode 0          (* not reachable: None results are not appended *)
-          | VNone, Some m => m
-          end)
+  | code :: rest => Some (match max_code rest with Some m => N.max code m | None => code end)
   end.
 
-(** [BundleContainer.actions] as far as it matters here, and the bundle. *)
-Record cstate := mkCS { c_deliver : bool; c_delete : option reason; c_view : view }.
+(** [BundleContainer.actions] as far as it matters here ('delete' with its reason), and the bundle. *)
+Record cstate := mkCS { c_deliver : bool; c_delete : option N; c_view : view }.
 
-Inductive flow := Continue | Interrupt | Raised.
+Inductive flow := Continue | Interrupt.
 
 Definition of_kind (bcb : bool) (secs : list secblk) : list secblk :=
   filter (fun s => s_visible s && Bool.eqb (s_bcb s) bcb) secs.
 
-(** Tail of [_verify_bib] / [_verify_bcb] once the [failure] list is known. *)
-Definition conclude (st : cstate) (v : view) (failure : list vres) : cstate * flow :=
-  match max_failure failure with
+(** Tail of [_verify_bib] / [_verify_bcb] once the [failure] list is known: remove 'deliver', record
+    'delete' with the largest code, interrupt the chain. *)
+Definition conclude (st : cstate) (v : view) (failure : list N) : cstate * flow :=
+  match max_code failure with
   | None => (mkCS (c_deliver st) (c_delete st) v, Continue)
-  | Some (MaxCode code) => (mkCS false (Some (RCode code)) v, Interrupt)
-  | Some MaxText => (mkCS false (Some RText) v, Interrupt)
-  | Some MaxTypeError => (mkCS false (c_delete st) v, Raised)
+  | Some code => (mkCS false (Some code) v, Interrupt)
   end.
 
 (** [Bpsec._verify_bcb] ([bcb = true]) / [Bpsec._verify_bib] ([bcb = false]). *)
@@ -186,8 +180,8 @@ Definition sec_step (c : cfg) (bcb : bool) (secs : list secblk) (st : cstate) : 
 
 Inductive outcome :=
 | Delivered (payload : N) (blocks : view)
-| Deleted (r : reason)
-| Dropped.                     (* neither delivered nor marked deleted *)
+| Deleted (reason : N)
+| Dropped.                     (* neither delivered nor marked deleted (not reached by [recv_sec], see C12) *)
 
 Record result := mkRes {
   r_reached : bool;             (* the chain got as far as the order-30 application steps *)
@@ -241,7 +235,7 @@ Definition find_blk (secs : list secblk) (n : N) : option secblk :=
   find (fun s => s_num s =? n) secs.
 
 Fixpoint verify_live (fuel : nat) (c : cfg) (secs : list secblk) (bcb : bool) (idx : nat) (v : view)
-  : view * list vres :=
+  : view * list N :=
   match fuel with
   | O => (v, [])
   | S fuel' =>
@@ -257,7 +251,7 @@ Fixpoint verify_live (fuel : nat) (c : cfg) (secs : list secblk) (bcb : bool) (i
       | Some s =>
         let '(v1, r) := verify_block c s v in
         let '(v2, rs) := verify_live fuel' c secs bcb (S idx) v1 in
-        (v2, match r with VNone => rs | _ => r :: rs end)
+        (v2, push r rs)
       end
     end
   end.
@@ -275,8 +269,7 @@ Definition ren_view (v : view) : datamap * secview := (v_data v, v_secs v).
 Definition ren_out (o : outcome) : N * N * (datamap * secview) :=
   match o with
   | Delivered p v => (0, p, ren_view v)
-  | Deleted (RCode c) => (1, c, ([], []))
-  | Deleted RText => (2, 0, ([], []))
+  | Deleted code => (1, code, ([], []))
   | Dropped => (3, 0, ([], []))
   end.
 
